@@ -117,3 +117,38 @@ func cmdReplay(args []string) int {
 	fmt.Println("no replay driver for", fn, "- the replay file carries the failed obligation and the solver output only")
 	return 0
 }
+
+// replayNoTTY builds the program from the tree under check and runs it in a
+// new session without a controlling terminal; a Go panic is a reproduction.
+func replayNoTTY(w *World, ob *Obligation, rep map[string]any) bool {
+	tmp, err := os.MkdirTemp("", "govc-replay")
+	if err != nil {
+		return false
+	}
+	defer os.RemoveAll(tmp)
+	bin := filepath.Join(tmp, "crs")
+	build := exec.Command("go", "build", "-o", bin, ".")
+	build.Dir = repoRoot
+	build.Env = append(os.Environ(), "GOFLAGS=-mod=mod", "GOPROXY=off", "GOSUMDB=off", "GOTOOLCHAIN=local")
+	if out, err := build.CombinedOutput(); err != nil {
+		rep["replay"] = map[string]any{"driver": "no-tty run of the built binary", "error": string(out)}
+		return false
+	}
+	run := exec.Command("timeout", "20", "setsid", "-w", bin, "-tls-certificate-cache", filepath.Join(tmp, "cert.txtar"))
+	run.Stdin = nil
+	out, _ := run.CombinedOutput()
+	s := string(out)
+	ok := strings.Contains(s, "panic:") || strings.Contains(s, "SIGSEGV") || strings.Contains(s, "goroutine 1 [")
+	if len(s) > 3000 {
+		s = s[:3000]
+	}
+	if ok {
+		s = "REPRODUCED: started without a controlling terminal the program panics instead of reporting the failure:\n" + s
+	}
+	rep["replay"] = map[string]any{"driver": "go build . && setsid -w ./curlrevshell </dev/null (no controlling terminal)", "reproduced": ok, "output": s}
+	return ok
+}
+
+func init() {
+	replayDrivers["main.rmain"] = replayNoTTY
+}
